@@ -281,10 +281,17 @@ def run(rep, tier, rng):
             rep.inconcl(f"did not reproduce in isolation: {sig}")
     # two transparent fields in one struct / variant must be rejected (E-exp)
     reqs = []
-    for item in ("struct Ty { #[debug(transparent)] a: u8, #[debug(transparent)] b: u8 }",
-                 "struct Ty(#[debug(transparent)] u8, u8, #[debug(transparent)] u8);",
-                 "enum Ty { A, B { #[debug(transparent)] a: u8, #[debug(transparent)] b: u8 } }",
-                 "enum Ty { A(#[debug(transparent)] u8, #[debug(transparent)] u8) }"):
+    items = ["struct Ty { #[debug(transparent)] a: u8, #[debug(transparent)] b: u8 }",
+             "struct Ty(#[debug(transparent)] u8, u8, #[debug(transparent)] u8);",
+             "enum Ty { A, B { #[debug(transparent)] a: u8, #[debug(transparent)] b: u8 } }",
+             "enum Ty { A(#[debug(transparent)] u8, #[debug(transparent)] u8) }"]
+    # the same with further arguments on one of the marked fields (ignore, bound) in every position and order, and three marked fields
+    T = "#[debug(transparent)]"
+    for extra in ("#[debug(ignore, transparent)]", "#[debug(transparent, ignore)]", "#[debug(transparent)] #[debug(ignore)]", "#[debug(transparent, bound(..))]",
+                  "#[debug(bound(), transparent)]"):
+        items += [f"struct Ty {{ {T} a: u8, {extra} b: u8 }}", f"struct Ty({extra} u8, {T} u8);", f"enum Ty {{ A, B({T} u8, u8, {extra} u8) }}",
+                  f"enum Ty {{ A {{ {extra} a: u8, x: u8, {T} b: u8 }} }}", f"struct Ty {{ {T} a: u8, {extra} b: u8, {extra} c: u8 }}"]
+    for item in items:
         reqs.append({"id": len(reqs), "entry": "attr", "attr": "Debug", "item": item})
         reqs.append({"id": len(reqs), "entry": "derive", "attr": "", "item": "#[derive_ex(Debug)] " + item})
     # one transparent field per variant in different variants is fine
